@@ -18,9 +18,9 @@ theorem rangeFromIter_text (sep ta tb ts : List Char) (c1 c2 : Char) (va vb vs :
   rw [hcreate]
   unfold rangeFromIter
   simp only [rangeSet]
-  rw [consumeD_mid sep [] ta c1 _ va ha h1]
+  rw [consumeD_mid sep [] ta c1 _ va ha h1 (strict_noLead tb _ vb hb)]
   simp only []
-  rw [consumeD_mid sep ([] ++ ta ++ [c1]) tb c2 ts vb hb h2]
+  rw [consumeD_mid sep ([] ++ ta ++ [c1]) tb c2 ts vb hb h2 (by have := strict_noLead ts [] vs hs; simpa using this)]
   simp only []
   rw [consumeD_last sep (([] ++ ta ++ [c1]) ++ tb ++ [c2]) ts vs hs]
 
@@ -171,6 +171,19 @@ def keyWalk : Nat → StrIt → List (List Char)
         | (_, _) => [v]
       | (_, _) => []
 
+theorem keyJoin_noLead (sep : List Char) (pairs : List (List Char × Char)) (last : List Char)
+    (hp : ∀ p ∈ pairs, KeyWord sep p.1) (hl : KeyWord sep last) : NoLeadSpace (sepJoin pairs last) := by
+  have key : ∀ (w rest : List Char), KeyWord sep w → NoLeadSpace (w ++ rest) := by
+    intro w rest hw
+    cases w with
+    | nil => exact absurd rfl hw.1
+    | cons x xs => exact ⟨x, xs ++ rest, rfl, (hw.2 x (by simp)).1⟩
+  cases pairs with
+  | nil => simpa [sepJoin] using key last [] hl
+  | cons p more =>
+    obtain ⟨w, c⟩ := p
+    exact key w _ (hp (w, c) (by simp))
+
 theorem keyWalk_from (sep : List Char) (pairs : List (List Char × Char)) (last : List Char)
     (hp : ∀ p ∈ pairs, KeyWord sep p.1 ∧ sep.contains p.2 = true ∧ isSpace p.2 = false)
     (hl : KeyWord sep last) (hsep : sep.isEmpty = false) (pre : List Char) (fuel : Nat) (hf : pairs.length < fuel) :
@@ -203,7 +216,12 @@ theorem keyWalk_from (sep : List Char) (pairs : List (List Char × Char)) (last 
     simp only [Bool.not_true, Bool.false_eq_true, ↓reduceIte]
     rw [key_mid sep pre w c _ hw hc hcs]
     simp only []
-    rw [advance_mid sep _ _ _ hlt]
+    have hnl : NoLeadSpace ((pre ++ (w ++ c :: sepJoin more last)).drop (pre.length + w.length + 1)) := by
+      have e : pre ++ (w ++ c :: sepJoin more last) = (pre ++ w ++ [c]) ++ sepJoin more last := by simp
+      have l : pre.length + w.length + 1 = (pre ++ w ++ [c]).length := by simp; omega
+      rw [e, l, List.drop_left]
+      exact keyJoin_noLead sep more last (fun q hq => (hp q (by simp [hq])).1) hl
+    rw [advance_mid sep _ _ _ hlt hnl]
     simp only []
     have htxt : pre ++ (w ++ c :: sepJoin more last) = (pre ++ w ++ [c]) ++ sepJoin more last := by simp
     have hpos : pre.length + w.length + 1 = (pre ++ w ++ [c]).length := by simp; omega
